@@ -24,6 +24,9 @@ EXPLANATION = (
     "no engine attribute other than queue and lock is written while processing, so nothing can stay 'stuck'. "
     "Residual: exceptions that are not Exception subclasses skip the queue clearing by design of `except Exception`."
 )
+EXPLANATION += (
+    " " + 'The invoker closures the dispatcher builds for resolved callbacks may not turn a failing attribute into a value (no default lookups, hasattr, suppress or non-re-raising handlers).'
+)
 ASSUMPTIONS = ["Lock.acquire/release and deque operations do not raise in the typestates established by the rules"]
 TRUSTED = ["Python try/except/finally semantics as modelled by the path enumerator"]
 
